@@ -97,6 +97,15 @@ def one(r, cn, camb=False, quick=True):
         except Exception:
             pass
         script.append(f"o.update({k2}={realfuzz.show(v2)})")
+        try:
+            fo = realfuzz.fresh_from(o)
+            for q in qs:
+                a, b = realfuzz.read(o, q), realfuzz.read(fo, q)
+                if a != b and not (a[0] == "exc" and b[0] == "exc" and a[1] == b[1]):
+                    viol.append({"key": f"{cn}/{how}/original-after-update/{q}", "what": f"after {how} (and an update of the copy), update({k2}) on the original: original.{q} differs from a fresh object's"})
+                    break
+        except Exception:
+            pass
         if realfuzz.canon(c.parameter_values) != cpar:
             viol.append({"key": f"{cn}/{how}/independence-rev/params", "what": f"updating the original ({k2}) changed the copy's parameters"})
         for q in qs:
@@ -104,6 +113,71 @@ def one(r, cn, camb=False, quick=True):
                 viol.append({"key": f"{cn}/{how}/independence-rev/{q}", "what": f"updating the original ({k2}) changed copy.{q}"})
                 break
     return viol, script, how
+
+
+def none_changes(quick):
+    """clone(**changes) with a meaningful None among the changes must apply it"""
+    realfuzz.init()
+    viol, n = [], 0
+    with warnings.catch_warnings():
+        warnings.simplefilter("ignore")
+        np.seterr(all="ignore")
+        for cn, k, nonnull in [("MassFunction", "mdef_model", "SOCritical"), ("MassFunctionWDM", "alter_model", "Schneider12_vCDM"),
+                               ("MassFunctionWDM", "mdef_model", "SOMean")]:
+            cls = realfuzz.class_by_name(cn)
+            o = cls(**dict(copy.deepcopy(realfuzz.BASE[cn]), **{k: nonnull}))
+            o.dndm
+            c = o.clone(**{k: None})
+            n += 1
+            if c.parameter_values[k] is not None:
+                viol.append({"key": f"{cn}/clone-none/{k}", "what": f"{cn}: clone({k}=None) kept {k}={realfuzz.show(c.parameter_values[k])}",
+                             "replay": {"kind": "c15", "script": [f"o = {cn}(..., {k}={nonnull!r})", "o.dndm", f"c = o.clone({k}=None)", f"c.parameter_values[{k!r}]"]}})
+                continue
+            fr = cls(**dict(copy.deepcopy(realfuzz.BASE[cn]), **{k: None}))
+            if realfuzz.read(c, "dndm") != realfuzz.read(fr, "dndm"):
+                viol.append({"key": f"{cn}/clone-none/{k}/dndm", "what": f"{cn}: clone({k}=None).dndm differs from a fresh object's",
+                             "replay": {"kind": "c15", "script": [f"o = {cn}(..., {k}={nonnull!r})", f"c = o.clone({k}=None)", "c.dndm"]}})
+    return viol, n
+
+
+def camb_user_params(quick):
+    """CAMB transfer with a user-supplied CAMBparams: copy, change the copy's cosmology and read it, then force the
+    original to recompute; both must equal fresh objects"""
+    realfuzz.init()
+    viol, n = [], 0
+    try:
+        import camb
+    except Exception:
+        return viol, n
+    from hmf.density_field.transfer import Transfer
+    with warnings.catch_warnings():
+        warnings.simplefilter("ignore")
+        np.seterr(all="ignore")
+        for how in ("deepcopy", "clone") if quick else ("deepcopy", "clone", "pickle"):
+            def mk():
+                cp = camb.CAMBparams(DoLensing=False, Want_CMB=False, Want_CMB_lensing=False, WantCls=False, WantDerivedParameters=False)
+                cp.Transfer.high_precision = False
+                cp.Transfer.k_per_logint = 0
+                return cp
+            base = dict(transfer_model="CAMB", lnk_min=-10.0, lnk_max=5.0, dlnk=0.25)
+            o = Transfer(transfer_params={"camb_params": mk()}, **base)
+            p0 = o.power.copy()
+            c = copy.deepcopy(o) if how == "deepcopy" else (o.clone() if how == "clone" else pickle.loads(pickle.dumps(o)))
+            c.update(cosmo_params={"Om0": 0.25})
+            pc = c.power
+            o.update(dlnk=0.2)
+            po = o.power
+            n += 1
+            fo = Transfer(transfer_params={"camb_params": mk()}, **dict(base, dlnk=0.2)).power
+            fc = Transfer(transfer_params={"camb_params": mk()}, cosmo_params={"Om0": 0.25}, **base).power
+            script = [f"o = Transfer(transfer_model='CAMB', transfer_params={{'camb_params': CAMBparams(...)}}, ...); o.power", f"c = {how}(o); c.update(cosmo_params={{'Om0': 0.25}}); c.power", "o.update(dlnk=0.2); o.power"]
+            if not (po.shape == fo.shape and np.allclose(po, fo, rtol=1e-9, atol=0)):
+                viol.append({"key": f"Transfer/CAMB-user-params/{how}/original", "what": f"after {how} and a cosmology change on the copy, the original's recomputed power differs from a fresh object's (max rel {float(np.max(np.abs(po / fo - 1))) if po.shape == fo.shape else 'shape'})",
+                             "replay": {"kind": "c15", "script": script}})
+            if not (pc.shape == fc.shape and np.allclose(pc, fc, rtol=1e-9, atol=0)):
+                viol.append({"key": f"Transfer/CAMB-user-params/{how}/copy", "what": f"{how} + cosmology change: the copy's power differs from a fresh object's",
+                             "replay": {"kind": "c15", "script": script}})
+    return viol, n
 
 
 def run(ctx):
@@ -126,6 +200,12 @@ def run(ctx):
         for x in v:
             if not any(y["key"] == x["key"] for y in out["violations"]):
                 x["replay"] = {"kind": "c15", "script": script, "cls": cn, "camb": camb}
+                out["violations"].append(x)
+    for fn in (none_changes, camb_user_params):
+        v, k = fn(quick)
+        n += k
+        for x in v:
+            if not any(y["key"] == x["key"] for y in out["violations"]):
                 out["violations"].append(x)
     out["coverage"] = {
         "evaluations": n + st["ops"], "programs": st["programs"], "disagreements_checked": st["programs"],
